@@ -173,7 +173,10 @@ def main(argv=None):
         n_self = selftest.run(full=False)
     except Exception as e:  # noqa
         inconclusive("oracle self-test failed: %s: %s" % (type(e).__name__, e))
-    mod = importlib.import_module("vpkg.checks." + prop.lower())
+    try:
+        mod = importlib.import_module("vpkg.checks." + prop.lower())
+    except ImportError as e:
+        inconclusive("no check module for %s: %s" % (prop, e))
     nshards = a.shards or mod.SHARDS.get(tier, 8)
     if a.replay:
         nshards = 1
